@@ -229,7 +229,7 @@ def run(chk):
     for c, raw in zip(cases, impl):
         exprs.append(f"(check_C11 {UNIVERSE} {ops_term(c)} {raw}, why_C11 {UNIVERSE} {ops_term(c)} {raw})")
     for c in cases:
-        exprs.append(f"forallb (op_in {UNIVERSE}) {ops_term(c)}")
+        exprs.append(f"forallb (op_in {UNIVERSE}) {ops_term(c)} && check_C11 {UNIVERSE} {ops_term(c)} (run_views {UNIVERSE} pg0 {ops_term(c)})")
     model = coq_eval("C11", IMPORTS, exprs)
     n = len(cases)
     distinct = set()
@@ -237,7 +237,10 @@ def run(chk):
         mv = canon(parse_term(model[i]))
         iv = canon(impl_t[i])
         verdict = parse_term(model[n + i])
-        assert model[2 * n + i].strip() == "true", f"generator produced an op outside the universe: {c}"
+        if model[2 * n + i].strip() != "true":
+            # the oracle must accept the model's own run (oracle soundness, evaluated per case)
+            chk.violation("oracle check_C11 rejects the model's own run (or op outside the universe)",
+                          f"{lines[i]}\ncheck_C11 U ops (run_views U pg0 ops) = false", failing_input=False)
         chk.coverage["evaluations"] += 1
         nev = stats(chk, c, iv)
         if nev > 0 and any(o[0] in ("x", "k", "l") for o in c):
